@@ -20,14 +20,14 @@ CONSTANTS Part, Mode, K, Start
 VARIABLES obj, hist
 
 (* ----- argument alphabets: valid, boundary and invalid ------------------- *)
-UKeys   == { B("ca"), B("hc"), B("1a"), B("CA"), B("c1"), B("c"), B("cal"), B("") }
+UKeys   == { B("ca"), B("hc"), B("1a"), B("CA"), B("c1"), B("c"), B("cal"), B(""), <<99, 0>> }
 UVals   == { <<>>, <<B("buddhist")>>, <<B("true")>>, <<B("islamic"), B("civil")>>, <<B("Gregory")>>,
              <<B("ab")>>, <<B("toolongxx")>>, <<B("a*c")>>, <<B("islamic"), B("true")>>, <<B("gregory"), B("x")>>,
              <<B("True")>>, <<B("islamic"), B("TRUE")>> }
 Attrs   == { B("foo"), B("bar"), B("FOO"), B("abcdefgh"), B("ab"), B("abcdefghi"), B("fo-o"), B(""), B("zzz") }
 TLangs  == { B("en"), B("en-US"), B("EN-latn-us-valencia"), B("und"), B("x"), B("en-"), B(""), B("de-1996-bavarian"),
              B("abcdefgh-Latn"), B("abcde-419"), B("be-1959acad-tarask") }
-TKeys   == { B("h0"), B("k0"), B("H0"), B("0h"), B("h"), B("hh"), B("") }
+TKeys   == { B("h0"), B("k0"), B("H0"), B("0h"), B("h"), B("hh"), B(""), <<104, 0>>, B("h!") }
 TVals   == { <<>>, <<B("hybrid")>>, <<B("true")>>, <<B("googlevk"), B("extended")>>, <<B("ab")>>,
              <<B("Windows")>>, <<B("a"), B("b")>>, <<B("hybrid"), B("!")>>, <<B("TRUE")>>, <<B("hybrid"), B("True")>> }
 Tags    == { B("a"), B("b"), B("c"), B("d"), B("D"), B("abcdefgh"), B("abcdefghi"), B(""), B("a*") }
